@@ -15,6 +15,8 @@ static void outSM(Out &o, const SpatialMatrix &A) { for (int r = 0; r < 6; r++) 
 static Quaternion readQuat(Toks &t) { double x = t.rat(), y = t.rat(), z = t.rat(), w = t.rat(); return Quaternion(x, y, z, w); }
 static void outQuat(Out &o, const Quaternion &q) { for (int i = 0; i < 4; i++) o.num(q[i]); }
 
+#include "algops2.h"
+
 static std::string algOp(Toks &t) {
   std::string op = t.next();
   Out o;
@@ -62,6 +64,6 @@ static std::string algOp(Toks &t) {
     LinSolveGaussElimPivot(A, b, x);
     o.vec(x);
   }
-  else o.str("bad-alg");
+  else if (!algOp2(op, t, o)) o.str("bad-alg");
   return op + " " + o.os.str();
 }
